@@ -110,9 +110,9 @@ func ruleOfRendering(a, b string) string {
 
 func checkC10(o options) int {
 	wall := o.wall
-	canonProcs, canonSessions, pristProcs, pristReps := 4, 200, 4, 3
+	canonProcs, canonSessions, pristProcs, pristReps, isoCap := 4, 200, 4, 3, 1200
 	if o.tier == "thorough" {
-		canonProcs, canonSessions, pristProcs, pristReps = 16, 3000, 16, 5
+		canonProcs, canonSessions, pristProcs, pristReps, isoCap = 16, 3000, 16, 5, 20000
 		if wall == 0 {
 			wall = 20 * time.Minute
 		}
@@ -147,9 +147,14 @@ func checkC10(o options) int {
 	logf("exploration done")
 
 	// phase 2: fresh processes, canonical seam: digests must agree across processes
+	isoFile := filepath.Join(scratch, "c10-iso-keys.json")
 	cres := runProcs(canonProcs, func(i int) (string, []string, []string, string) {
 		of := filepath.Join(scratch, fmt.Sprintf("c10-canon%d.json", i))
-		return inst.bin, []string{"c10", "--canonical", "--seed", fmt.Sprint(o.seed), "--worker", "0", "--sessions", fmt.Sprint(canonSessions), "--out", of, "--replays", rdir, "--sources", o.sources, "--known", knownArg(known)}, nil, of
+		args := []string{"c10", "--canonical", "--seed", fmt.Sprint(o.seed), "--worker", "0", "--sessions", fmt.Sprint(canonSessions), "--out", of, "--replays", rdir, "--sources", o.sources, "--known", knownArg(known)}
+		if i == 0 {
+			args = append(args, "--isolate-out", isoFile, "--isolate-cap", fmt.Sprint(isoCap))
+		}
+		return inst.bin, args, nil, of
 	})
 	var canon []c10Stats
 	for _, r := range cres {
@@ -177,6 +182,36 @@ func checkC10(o options) int {
 				}
 			}
 		}
+	}
+
+	// phase 2b: isolated fresh-process oracle. Each sampled key of child 0 is
+	// evaluated again as the only thing a brand-new process does, and must equal
+	// what the same texts gave inside the session (after whatever that process
+	// had loaded and validated before): "in the same process, in a fresh process".
+	type isoMismatch struct {
+		Key      json.RawMessage `json:"key"`
+		Isolated string                 `json:"isolated_rendering"`
+		Rule     string                 `json:"rule"`
+	}
+	isoCompared := 0
+	var isoBad []isoMismatch
+	ires := runProcs(o.workers, func(i int) (string, []string, []string, string) {
+		of := filepath.Join(scratch, fmt.Sprintf("c10-iso%d.json", i))
+		return inst.bin, []string{"c10-isolated", "--in", isoFile, "--part", fmt.Sprint(i), "--parts", fmt.Sprint(o.workers), "--out", of}, nil, of
+	})
+	for _, r := range ires {
+		if r.err != nil {
+			die(2, "C10 isolated-oracle batch %d failed:\n%s", r.idx, tail(r.stderr, 40))
+		}
+		var ir struct {
+			Compared   int           `json:"compared"`
+			Mismatches []isoMismatch `json:"mismatches"`
+		}
+		if err := readJSONFile(r.file, &ir); err != nil {
+			die(2, "C10 isolated-oracle batch %d result: %v", r.idx, err)
+		}
+		isoCompared += ir.Compared
+		isoBad = append(isoBad, ir.Mismatches...)
 	}
 
 	// phase 3: pristine (uninstrumented) build under the real runtime order
@@ -236,6 +271,21 @@ func checkC10(o options) int {
 			seenClass[v.Class] = true
 			finals = append(finals, finalV{v.Class, v.Replay, fmt.Sprint(v.Witness["first_diff_line"])})
 		}
+	}
+	// history dependence found by the isolated oracle: one witness per rule
+	for i, m := range isoBad {
+		class := "disagree-history|rule=" + m.Rule
+		if seenClass[class] {
+			continue
+		}
+		seenClass[class] = true
+		mf := filepath.Join(scratch, fmt.Sprintf("iso-mismatch%d.json", i))
+		writeJSONFile(mf, m)
+		rf := filepath.Join(rdir, fmt.Sprintf("C10-history-%d.json", i))
+		if out, err := run(scratch, nil, inst.bin, "c10-history-witness", "--in", mf, "--out", rf); err != nil {
+			die(2, "C10: a key evaluated alone in a fresh process differs from its in-session result, but the witness did not reproduce when replayed (simulator or harness nondeterminism?):\n%s", tail(out, 10))
+		}
+		finals = append(finals, finalV{class, rf, "result depends on process history (isolated fresh-process oracle), rule " + m.Rule})
 	}
 	// pristine disagreement among real runs: a violation whatever caused it
 	realMulti, translationChecked := 0, 0
@@ -301,7 +351,7 @@ func checkC10(o options) int {
 			continue
 		}
 		dst := filepath.Join(outDir, filepath.Base(f.replay))
-		if strings.Contains(f.class, "disagree:") {
+		if strings.Contains(f.class, "disagree:") || strings.Contains(f.class, "disagree-history|") {
 			// replay in a fresh process: must reproduce the same class
 			out, err := run(scratch, nil, inst.bin, "c10-replay", f.replay)
 			reproduced := err != nil && strings.Contains(out, "REPRODUCED class="+f.class)
@@ -309,9 +359,12 @@ func checkC10(o options) int {
 				die(2, "C10: replay of %s did not reproduce class %s in a fresh process (simulator nondeterminism?):\n%s", f.replay, f.class, tail(out, 10))
 			}
 			// confirmation under the real runtime (evidence, not a precondition)
-			conf := confirmReal(prist, f.replay)
+			conf := "n/a (history dependence, not map order)"
+			if strings.Contains(f.class, "disagree:") {
+				conf = confirmReal(prist, f.replay)
+			}
 			var rp map[string]interface{}
-			if err := readJSONFile(f.replay, &rp); err == nil {
+			if err := readJSONGeneric(f.replay, &rp); err == nil {
 				rp["confirmed_on_real_runtime"] = conf
 				rp["repo_tree"] = repoTree()
 				rp["verif_seed"] = o.seed
@@ -342,6 +395,8 @@ func checkC10(o options) int {
 	cov["fresh_process_children"] = canonProcs
 	cov["fresh_process_sessions_each"] = canonSessions
 	cov["fresh_process_key_comparisons"] = crossCompared
+	cov["isolated_process_keys_compared"] = isoCompared
+	cov["isolated_process_mismatches"] = len(isoBad)
 	cov["pristine_children"] = pristProcs
 	cov["pristine_keys"] = len(pristAll)
 	cov["pristine_keys_with_several_results"] = realMulti
